@@ -117,9 +117,9 @@ def embed_3d_via_rdkit(mol_graph):
     conf = rdkit_mol.GetConformer()
 
     # write the positions to the original molecule graph
-    for ndx, atom in enumerate(rdkit_mol.GetAtoms()):
+    for node, atom in zip(mol_graph.nodes, rdkit_mol.GetAtoms()):
         pos = conf.GetAtomPosition(atom.GetIdx())
-        mol_graph.nodes[ndx]['position'] = np.array([pos.x, pos.y, pos.z])
+        mol_graph.nodes[node]['position'] = np.array([pos.x, pos.y, pos.z])
 
     return mol_graph
 
